@@ -129,9 +129,15 @@ class PackCommitBuilder(VersionedFileCommitBuilder):
             lossy=lossy,
             owns_transaction=owns_transaction,
         )
-        self._file_graph = _vcsgraph.Graph(
-            repository._pack_collection.text_index.combined_index
-        )
+        if repository._fallback_repositories:
+            # The per-file graph of a stacked repository continues in its
+            # fallbacks: its own text index alone would make every text that
+            # lives in a fallback look like a head.
+            self._file_graph = _vcsgraph.Graph(repository.texts)
+        else:
+            self._file_graph = _vcsgraph.Graph(
+                repository._pack_collection.text_index.combined_index
+            )
 
     def _heads(self, file_id, revision_ids):
         keys = [(file_id, revision_id) for revision_id in revision_ids]
